@@ -189,6 +189,75 @@ func H_C12_Native() {
 			return
 		}
 	}
+	c12NativeOrder(400)
+}
+
+// c12NativeOrder: one writer sending numbered messages back-to-back while the connection is closed locally a few hundred
+// microseconds in; the peer records what it receives: it must be 0,1,2,.. without gap, duplicate or reordering, and not
+// longer than the number of accepted writes.
+func c12NativeOrder(rounds int) {
+	for it := 0; it < rounds; it++ {
+		p, err := newNativePair()
+		if err != nil {
+			continue
+		}
+		var got []byte
+		recvDone := make(chan struct{})
+		go func() {
+			defer close(recvDone)
+			for {
+				_ = p.peer.SetReadDeadline(time.Now().Add(2 * time.Second))
+				t, m, err := p.peer.ReadMessage()
+				if err != nil {
+					return
+				}
+				if t == websocket.BinaryMessage && len(m) == 2 {
+					got = append(got, m[1])
+				}
+			}
+		}()
+		accepted := 0
+		wdone := make(chan struct{})
+		go func() {
+			defer close(wdone)
+			for k := 0; k < 10; k++ {
+				if p.w.WriteMessageToWebsocketConnection([]byte{2, byte(k)}) == nil {
+					accepted++
+				}
+			}
+		}()
+		time.Sleep(time.Duration(20+(it*37)%400) * time.Microsecond)
+		if it%2 == 0 {
+			p.w.CloseDataConnection(4001, "")
+		} else {
+			p.w.CloseDataConnection(4500, "bye")
+		}
+		select {
+		case <-wdone:
+		case <-time.After(3 * time.Second):
+			zzvrt.Fail("C12.writer-blocked-forever")
+		}
+		p.peer.SetReadDeadline(time.Now().Add(300 * time.Millisecond))
+		select {
+		case <-recvDone:
+		case <-time.After(3 * time.Second):
+		}
+		ok := len(got) <= accepted
+		for i, b := range got {
+			if int(b) != i {
+				ok = false
+			}
+		}
+		if !ok {
+			zzvrt.Log(fmt.Sprintf("accepted %d, peer received %v", accepted, got))
+			zzvrt.Fail("C12.frames-not-a-prefix")
+		}
+		p.peer.Close()
+		p.srv.Close()
+		if len(zzvrt.Failures) > 0 {
+			return
+		}
+	}
 }
 
 // H_C13_Native: transport loss is reported once and releases the socket; a local close reports nothing.
@@ -198,9 +267,9 @@ func H_C13_Native() {
 		if err != nil {
 			continue
 		}
-		cause := it % 3
+		cause := it % 4
 		p.proc.mu.Lock()
-		p.proc.noClose = (it/3)%2 == 1
+		p.proc.noClose = (it/4)%2 == 1
 		p.proc.mu.Unlock()
 		// while the SHIP layer handles the error the peer sends one more frame: it must not be delivered any more
 		pp := p
@@ -220,6 +289,9 @@ func H_C13_Native() {
 			go func() { _ = p.w.WriteMessageToWebsocketConnection([]byte{2, 'y'}) }()
 			go func() { _ = p.w.WriteMessageToWebsocketConnection([]byte{2, 'z'}) }()
 			p.w.CloseDataConnection(4500, "bye")
+		case 3: // local close with a reason while the transport can no longer be written: still a local close
+			atomic.StoreInt32(&p.wc.failWriteAt, 1)
+			p.w.CloseDataConnection(4500, "bye")
 		}
 		time.Sleep(120 * time.Millisecond)
 		reports, _ := p.proc.counts()
@@ -228,8 +300,9 @@ func H_C13_Native() {
 		case 0, 1:
 			zzvrt.Assert(reports >= 1, "C13.transport-loss-not-reported")
 			zzvrt.Assert(closed && cerr != nil, "C13.closed-query-after-transport-loss")
-		case 2:
+		case 2, 3:
 			zzvrt.Assert(reports == 0, "C13.error-reported-after-local-close")
+			zzvrt.Assert(closed, "C13.not-closed-after-local-close")
 		}
 		zzvrt.Assert(reports <= 1, "C13.error-reported-twice")
 		p.proc.mu.Lock()
